@@ -66,8 +66,24 @@ SCALARS = st.one_of(
     st.sampled_from([0.5, -1.5, 2.0]))
 
 
+def typed_desc(child):
+  """A valid Typed(...) object descriptor (fields with constraints, so writes can be rejected)."""
+  pdesc = st.dictionaries(st.sampled_from(['x', 'y']), child, max_size=2).map(
+      lambda a: {'$o': 'P', 'a': a})
+  return st.fixed_dictionaries({}, optional={
+      'i': st.integers(0, 9),
+      's': st.sampled_from(['a', 'b']),
+      'l': st.lists(st.integers(-2, 5), max_size=3),
+      'd': st.fixed_dictionaries({}, optional={'k': st.one_of(st.none(), st.integers(0, 3)),
+                                               'u1': st.sampled_from(['a', 'b'])}).map(
+                                                   lambda m: {'$d': [[k, v] for k, v in m.items()]}),
+      'o': st.one_of(st.none(), pdesc),
+      'u': st.one_of(st.none(), st.integers(0, 3), st.lists(child, max_size=2)),
+  }).map(lambda a: {'$o': 'Typed', 'a': a})
+
+
 def vdesc(max_leaves=10, keys=None, objects=True, tuples=False, opaque=False,
-          scalars=None):
+          scalars=None, typed=False):
   keys = keys if keys is not None else KEYS
   leaves = [scalars if scalars is not None else SCALARS]
   if opaque:
@@ -89,6 +105,8 @@ def vdesc(max_leaves=10, keys=None, objects=True, tuples=False, opaque=False,
       opts.append(st.sampled_from(classes.UNTYPED).flatmap(obj))
     if tuples:
       opts.append(st.lists(c, max_size=3).map(lambda v: {'$t': v}))
+    if typed:
+      opts.append(typed_desc(c))
     return st.one_of(*opts)
   return st.recursive(leaf, ext, max_leaves=max_leaves)
 
